@@ -190,6 +190,68 @@ func Verif_C09_XORKeyStreamOverlap() {
 	}
 }
 
+// ---- wrapper logic over abstract salsa (solver-easy counterexamples) ----
+
+var c09Abstract bool
+
+//verif:stub golang.org/x/crypto/salsa20/salsa.HSalsa20
+func c09StubHSalsa20(out *[32]byte, in *[16]byte, k *[32]byte, c *[16]byte) {
+	if !verifrt.Symbolic() || !c09Abstract {
+		salsa.HSalsa20(out, in, k, c)
+		return
+	}
+	copy(out[:], verifrt.UFBytes("hsalsa20", 32, in[:], k[:], c[:]))
+}
+
+//verif:stub golang.org/x/crypto/salsa20/salsa.XORKeyStream
+func c09StubXORKeyStream(out, in []byte, counter *[16]byte, key *[32]byte) {
+	if !verifrt.Symbolic() || !c09Abstract {
+		salsa.XORKeyStream(out, in, counter, key)
+		return
+	}
+	ks := verifrt.UFBytes("salsa20stream", len(in), counter[:], key[:])
+	for i := range in {
+		out[i] = in[i] ^ ks[i]
+	}
+}
+
+// Verif_C09_XORKeyStreamAbs: the wrapper's own logic with salsa.HSalsa20 and salsa.XORKeyStream
+// as uninterpreted functions (they are decided by the salsa harnesses): for a 24-byte nonce the
+// stream is taken under key' = HSalsa20(nonce[0:16], key, sigma) with counter block
+// nonce[16:24] || 0^8, for an 8-byte nonce under key with nonce || 0^8; the caller's key is not
+// overwritten. Lengths {1, 70}.
+func Verif_C09_XORKeyStreamAbs() {
+	c09Abstract = true
+	nl := []int{8, 24}[verifrt.Choose(0, 1)]
+	n := []int{1, 70}[verifrt.Choose(0, 1)]
+	nonce := verifrt.Bytes(nl)
+	var key [32]byte
+	copy(key[:], verifrt.Bytes(32))
+	k0 := key
+	in := verifrt.Bytes(n)
+	out := make([]byte, n)
+	XORKeyStream(out, in, nonce, &key)
+	var counter [16]byte
+	k := k0
+	if nl == 24 {
+		var h [16]byte
+		copy(h[:], nonce[:16])
+		sigma := [16]byte{'e', 'x', 'p', 'a', 'n', 'd', ' ', '3', '2', '-', 'b', 'y', 't', 'e', ' ', 'k'}
+		salsa.HSalsa20(&k, &h, &k0, &sigma)
+		copy(counter[:8], nonce[16:24])
+	} else {
+		copy(counter[:8], nonce)
+	}
+	want := make([]byte, n)
+	salsa.XORKeyStream(want, in, &counter, &k)
+	for i := range want {
+		verifrt.Assert(out[i] == want[i], "out = in XOR (X)Salsa20 keystream of the specification")
+	}
+	for i := range key {
+		verifrt.Assert(key[i] == k0[i], "caller's key not modified (XSalsa20 subkey is a copy)")
+	}
+}
+
 // Verif_C09_XORKeyStreamT: every input length 0..200 for nonce lengths 8 and 24.
 func Verif_C09_XORKeyStreamT() {
 	nl := []int{8, 24}[verifrt.Choose(0, 1)]
